@@ -18,11 +18,18 @@ ASSUMPTIONS_E1 = [
 ]
 
 
+PRELOAD = []          # (vkey, witness, detail) found before the property's own exploration (instance probe); set by ./check
+PROBE_STEPS = 0
+
+
 class Collector(object):
     def __init__(self, prop):
         self.prop = prop
         self.by_key = {}      # vkey -> dict(first witness, count)
         self.order = []
+        for vkey, wit, det in PRELOAD:
+            if vkey.startswith(prop + '|'):
+                self.add(vkey, wit, det)
 
     def add(self, vkey, witness, detail=None, task=None):
         """task: the (picklable) argument of the worker task that produced the violation; --replay falls back to re-running
@@ -58,7 +65,8 @@ class Collector(object):
             os.makedirs(d, exist_ok=True)
             path = os.path.join(d, findings.key_hash(vkey) + '.json')
             with open(path, 'w') as f:
-                doc = {'property': self.prop, 'kind': replay_kind, 'key': vkey, 'witness': e['witness'], 'detail': e['detail']}
+                kind = 'instance-probe' if isinstance(e['witness'], dict) and e['witness'].get('probe') else replay_kind
+                doc = {'property': self.prop, 'kind': kind, 'key': vkey, 'witness': e['witness'], 'detail': e['detail']}
                 if e.get('task') is not None:
                     packed = pack(e['task'])
                     if len(packed) <= 400000:
@@ -156,6 +164,8 @@ def write_evidence(prop, tier, seed, level, coverage, assumptions, wall_s, viola
     ev = {'property_id': prop, 'tier': tier, 'seed': int(seed), 'level': level,
           'coverage': coverage, 'assumptions': list(assumptions), 'wall_s': round(wall_s, 2),
           'violations': int(violations)}
+    if PROBE_STEPS:
+        ev['coverage']['instance_probe_steps'] = PROBE_STEPS
     if extra:
         ev.update(extra)
     tmp = os.path.join(d, prop + '.json.tmp')
